@@ -413,6 +413,11 @@ def gen_render_case(rng, exact=None):
                             (["phantom_obstacle", "occupancy"], "draw_occupancies")):
                 if rng.random() < 0.6:
                     ops.append([path, k, {"t": "bool", "v": True}])
+            if rng.random() < 0.4:
+                ops.append([["dynamic_obstacle"], "draw_shape", {"t": "bool", "v": False}])
+            if rng.random() < 0.7:
+                ops.append([["dynamic_obstacle", "history"], "steps", {"t": "int", "v": rng.choice([1, 2, 3, 0])}])
+                ops.append([["dynamic_obstacle", "history"], "step_size", {"t": "int", "v": rng.choice([1, 2, 3])}])
         if rng.random() < 0.25:  # a whole group assigned, last
             o = rand_op(rng, table, True, True, pools)
             if o[2]["t"] == "node":
@@ -731,6 +736,9 @@ def run(ctx):
         ctx.proof_breaks.append({"theorem": "table translator (fail-closed)", "where": "harness/props/c19_gen.py",
                                  "log": str(e)})
         ctx.log(f"proof_broken theorem=tables ({e})")
+        ctx.obligations = ["table translator"]
+        # the generators need the class tables too: nothing can be searched, the broken translation is the report
+        return ctx.finish(RULE, assumptions=ASSUME)
     ctx.build_props()
     if ctx.tier == "thorough":
         ctx.coqchk()
@@ -743,7 +751,7 @@ def run(ctx):
             f, term = run_param_case(case)
             reach = sum(1 for _ in case["ops"])
             ctx.count(case, reach > 1, "param")
-            if term is not None and not ctx.proof_breaks_tables:
+            if term is not None:
                 pterms.append(term)
                 pcases.append(case)
         else:
@@ -751,13 +759,12 @@ def run(ctx):
             ctx.count(case, info["drawn"] > 0 and info["skipped"] > 0, "render-exact" if case["exact"] else "render-total")
             if f is None or not f[0].startswith("total:"):
                 stats["total_ok"] += 1
-            if term is not None and not ctx.proof_breaks_tables:
+            if term is not None:
                 sterms.append(term)
                 scases.append(case)
         if f:
             ctx.fail(f[0], f[1], case)
 
-    ctx.proof_breaks_tables = any(b["theorem"].startswith("table translator") for b in ctx.proof_breaks)
     for c in load_corpus(ctx.prop):
         do(c)
     for _ in range(n_p):
@@ -765,8 +772,7 @@ def run(ctx):
     for _ in range(n_r):
         do(gen_render_case(ctx.rng))
     ctx.coverage["draw_render_completed"] = stats["total_ok"]
-    if not ctx.proof_breaks_tables:
-        corr(ctx, pterms, pcases, sterms, scases)
+    corr(ctx, pterms, pcases, sterms, scases)
     if (ctx.proof_breaks or ctx.corr_breaks) and not ctx.failures:
         ctx.log(f"proof/correspondence broke ({len(ctx.proof_breaks)}/{len(ctx.corr_breaks)}); widening the search")
         broken = [b["case"] for b in ctx.corr_breaks if isinstance(b.get("case"), dict) and "k" in b["case"]]
